@@ -250,4 +250,25 @@ theorem lineCol_line (s : Bytes) (q : Nat) : (lineCol s q).line = firstLine + nl
   rw [scan_line]
   rfl
 
+/-- inserting whole lines at a line start does not change the text of the line a later offset is on -/
+theorem sourceLine_insert_lines (s ins : Bytes) (p q : Nat) (hpq : p ≤ q) (hq : q ≤ s.length)
+    (hstart : (lineCol s p).col = firstColumn) (hins : NlTerminated ins) :
+    sourceLine (insertAt s p ins) (q + ins.length) = sourceLine s q := by
+  unfold sourceLine
+  rw [drop_insertAt_after s ins p q hpq hq, take_insertAt_after s ins p q hpq hq, take_split s p q hpq]
+  congr 1
+  have hp0 : lastLine (s.take p) = [] := by
+    have := lineCol_col s p
+    rw [hstart] at this
+    have hl : (lastLine (s.take p)).length = 0 := by omega
+    exact List.eq_nil_of_length_eq_zero hl
+  by_cases hr : 0 < nlCount ((s.drop p).take (q - p))
+  · rw [lastLine_append_hasNl _ _ hr, lastLine_append_hasNl _ _ hr]
+  · have hr0 : nlCount ((s.drop p).take (q - p)) = 0 := by omega
+    rw [lastLine_append_noNl _ _ hr0, lastLine_append_noNl _ _ hr0]
+    congr 1
+    rcases hins with rfl | ⟨pre, c, rfl, hc⟩
+    · simp
+    · rw [hp0, ← List.append_assoc, lastLine_append_nl _ c hc]
+
 end RsslVerif.Lemmas.SourceMap
